@@ -6,6 +6,8 @@ From Coq Require Import ZArith Bool.
 From PV Require Import Base.Common Base.IR Base.Bits Model.Lower Proofs.LowerProofs.
 From PV Require Model.Cfg Proofs.CfgProofs Model.Syntax Model.LabelScope.
 From PV Require Model.Layout Model.MemLower Proofs.MemLowerProofs.
+From PV Require Model.Autoderef Proofs.AutoderefProofs.
+From Coq Require Import List.
 Open Scope Z_scope.
 
 (* For every binary operator and every primitive type the resolver admits for
@@ -203,3 +205,17 @@ Print Assumptions C01_distinct_paths_do_not_overlap.
 Print Assumptions C01_generated_address_is_the_meaning_of_the_steps.
 Print Assumptions C01_slice_element.
 Print Assumptions C01_pinned_slice_of_pointers_refuted.
+
+(* The step insertion that Model/MemLower.v assumes for reads and writes of scalars ([elaborate]) IS the
+   loop of the typer's Reference::autoderef (Model/Autoderef.v, which follows typer.rs arm by arm over the
+   full ValueType): same steps in the same order, same final type, no coercion, no address taken. *)
+Theorem C01_memory_steps_are_the_typers : forall t p rs t',
+  AutoderefProofs.struct_free t = true ->
+  MemLower.elaborate t p = Some (rs, t') ->
+  (exists b, t' = MemLower.PInt b) \/ t' = MemLower.PBool ->
+  exists taken,
+    Autoderef.autoderef AutoderefProofs.no_members (AutoderefProofs.vt_of_pty t) (AutoderefProofs.vt_of_pty t') (map AutoderefProofs.astep_of_step p) 0
+    = Autoderef.ADOk taken false (AutoderefProofs.vt_of_pty t') None /\
+    map AutoderefProofs.rstep_of_tstep taken = map AutoderefProofs.forget_index rs.
+Proof. exact AutoderefProofs.elaborate_is_autoderef. Qed.
+Print Assumptions C01_memory_steps_are_the_typers.
